@@ -3,6 +3,7 @@
 abstract nodes) and (2) executed natively on real puan objects by the rt engine (replay, cross-check, bounded stand-ins).
 """
 from pyvc.nodes import fsum, fall, fany, ite, band, bor, bnot, implies, is_abs
+from pyvc.folds import unwrap
 
 try:  # symbolic side
     from pyvc.sym import SInt
@@ -26,6 +27,7 @@ def env_value(env, vid):
 
 def truth(node, env):
     """arithmetic truth function: leaves take env's value; a compound is 1 iff sign * sum(children) >= value"""
+    node = unwrap(node)
     if is_abs(node):
         return node.sym("tv@" + env_name(env))
     if is_variable(node):
@@ -40,6 +42,7 @@ def env_name(env):
 
 def solver_safe(node):
     """no compound child sits under a negatively signed parent (recursively)"""
+    node = unwrap(node)
     if is_abs(node):
         return node.sym_bool("safe")
     if is_variable(node):
@@ -50,6 +53,101 @@ def solver_safe(node):
 
 def is_variable_t(node):
     """is_variable as a truth *term* (no forking on abstract nodes)"""
+    node = unwrap(node)
     if is_abs(node):
         return node.atom_truth()
     return is_variable(node)
+
+
+# ------------------------------------------------------------------------------------------------------------------
+# interval semantics (C03, C06, C07)
+# ------------------------------------------------------------------------------------------------------------------
+
+def env_has(env, vid):
+    if hasattr(env, "has"):
+        return env.has(vid)
+    return vid in env
+
+
+def env_interval(env, vid):
+    """(lo, hi) of the value stored under vid: int -> (v,v); tuple -> itself; Bounds -> as_tuple"""
+    if hasattr(env, "lo"):
+        return env.lo(vid), env.hi(vid)
+    v = env[vid]
+    if hasattr(v, "as_tuple"):
+        return tuple(v.as_tuple())
+    if isinstance(v, tuple):
+        return (v[0], v[1])
+    return (v, v)
+
+
+def pair_ite(c, a, b):
+    return ite(c, a[0], b[0]), ite(c, a[1], b[1])
+
+
+def ival(node, d):
+    """interval value of a node under a (partial, interval valued) interpretation d.
+
+    leaf: d's entry if present, else its bounds.  compound: `own` = d's entry for its id if present else its own
+    variable's bounds; if `own` is a constant the node takes it (C03's override clause); otherwise the 0/1 interval
+    ([sign*sum >= value] at the children's lower ends, ... upper ends; ends swapped for a negative sign)."""
+    node = unwrap(node)
+    if is_abs(node):
+        return node_ival_symbols(node, d)
+    if is_variable(node):
+        return pair_ite(env_has(d, node.id), env_interval(d, node.id) if _may_have(d, node.id) else (0, 0),
+                        (node.bounds.lower, node.bounds.upper))
+    own = pair_ite(env_has(d, node.id), env_interval(d, node.id) if _may_have(d, node.id) else (0, 0),
+                   (node.bounds.lower, node.bounds.upper))
+    slo = fsum(node.propositions, lambda c: ival(c, d)[0])
+    shi = fsum(node.propositions, lambda c: ival(c, d)[1])
+    if _is_true(node.sign > 0):
+        comp = (ite(slo >= node.value, 1, 0), ite(shi >= node.value, 1, 0))
+    else:
+        comp = (ite(-shi >= node.value, 1, 0), ite(-slo >= node.value, 1, 0))
+    return pair_ite(own[0] == own[1], own, comp)
+
+
+def _is_true(x):
+    return bool(x)
+
+
+def _may_have(d, vid):
+    """native dicts raise on missing keys; symbolic envs are total functions"""
+    if hasattr(d, "has"):
+        return True
+    return vid in d
+
+
+def node_ival_symbols(node, d):
+    import z3
+    from pyvc.sym import ctx, to_term
+    lo, hi = node.sym("ilo@" + d.name), node.sym("ihi@" + d.name)
+    atom = node.atom_term()
+    vid = node._var().id
+    has = d.has(vid)
+    dlo, dhi = d.lo(vid), d.hi(vid)
+    from pyvc.sym import to_bterm
+    c = ctx()
+    c.axiom(z3.Implies(atom, z3.And(
+        lo.t == z3.If(to_bterm(has), dlo.t, to_term(node.sym("lo"))),
+        hi.t == z3.If(to_bterm(has), dhi.t, to_term(node.sym("hi"))))))
+    # lemma ival/wf (proved by the spec-level harness IvalWfLemma): lower end <= upper end
+    c.axiom(lo.t <= hi.t)
+    return lo, hi
+
+
+def truth3(node, e, d=None):
+    """C03's truth function with the override clause: leaves take their value from e (which fixes every leaf to an
+    integer); a compound whose own id is given a constant by d (default: e), or whose own bounds are constant, takes
+    that constant; otherwise the arithmetic truth function of its children."""
+    node = unwrap(node)
+    d = e if d is None else d
+    if is_abs(node):
+        return node.sym("t3@" + env_name(e) + ("" if d is e else "/" + env_name(d)))
+    if is_variable(node):
+        return env_interval(e, node.id)[0]
+    own = pair_ite(env_has(d, node.id), env_interval(d, node.id) if _may_have(d, node.id) else (0, 0),
+                   (node.bounds.lower, node.bounds.upper))
+    s = fsum(node.propositions, lambda c: truth3(c, e, d))
+    return ite(own[0] == own[1], own[0], ite(node.sign * s >= node.value, 1, 0))
